@@ -8,6 +8,7 @@ From Coq Require Import List.
 From AQ Require Import Feed.FeedLTS Feed.FeedProofs Feed.FeedInvA Feed.FeedInvB Feed.FeedExact Feed.FeedOrder Feed.FeedRecv Feed.FeedStuck Feed.FeedBlocked.
 From AQ Require Import Feed.MuxLTS Feed.MuxProofs Feed.MuxExact Feed.MuxPath.
 From AQ Require Import Feed.DupLTS Feed.DupProofs Feed.DupDeliver Feed.DupPath.
+From AQ Require Import Feed.ScopeLTS Feed.ScopeProofs.
 Import ListNotations.
 
 (* exactly_once: on every path of the LTS, a Send that has completed (put the sendLock token back;
@@ -176,6 +177,36 @@ Example C19_dup_example :
                          (LUnsubCall 1, 0); (LRemoveNotInbox 1, 0); (LRemoveLock 1, 0); (LRemoveUnlock 1, 0); (LUnsubRet 1, 0);
                          (LSendCall 2, 0); (LSendLock 2, 0); (LSendMerge 2, 0); (LTryOk 2 2, 0); (LTryOk 2 1, 0); (LSendUnlock 2, 0); (LSendRet 2 2, 0)] = Some st
     /\ count_log 1 1 (d_log st) = 2 /\ count_log 2 1 (d_log st) = 1 /\ cnt 1 (d_arr st) = 1 /\ d_nsub st 1 = 2 /\ d_panicked st = false.
+Proof. eexists. vm_compute. repeat split; reflexivity. Qed.
+
+(* ======================================================================== SubscriptionScope (subscription.go)
+   Feed/ScopeLTS.v: Track / Close / scopeSub.Unsubscribe as interleavings of atomic steps with sc.mu explicit
+   (`k_mu`); `k_added` = every subscription Track ever accepted, `k_unsubd x` = x's own Unsubscribe has returned;
+   `k_cpc st k = CDone` = Close call k has finished (either it did the work or it found the scope closed). *)
+
+(* when ANY Close call has finished: the scope is closed, sc.mu is free, nothing is tracked, every subscription
+   ever tracked has been unsubscribed, and Track can only return nil from then on *)
+Theorem C19_scope_close_complete : forall st k, kreachable st -> k_cpc st k = CDone ->
+  k_closed st = true /\ k_mu st = None /\ k_tracked st = [] /\
+  (forall x, In x (k_added st) -> k_unsubd st x = true) /\
+  (forall x, kstep st (KTrackAdd x) = None).
+Proof. exact scope_close_complete. Qed.
+Print Assumptions C19_scope_close_complete.
+
+(* sc.mu is held across the whole loop of Close: meanwhile no Track, no second Close and no map deletion pass *)
+Theorem C19_scope_mu_excludes : forall st k todo, kreachable st -> k_cpc st k = CLoop todo ->
+  k_mu st = Some k /\ (forall x, kstep st (KTrackAdd x) = None) /\ (forall x, kstep st (KTrackNil x) = None) /\
+  (forall k', kstep st (KCloseSkip k') = None) /\ (forall k', kstep st (KCloseBegin k') = None) /\ (forall x, kstep st (KWDel x) = None).
+Proof. exact scope_mu_excludes. Qed.
+Print Assumptions C19_scope_mu_excludes.
+
+(* non-vacuity: two tracked subscriptions, one unsubscribes itself through its wrapper, Close 1 does the work,
+   Close 2 finds the scope closed, a later Track is refused *)
+Example C19_scope_example :
+  exists st, krun kinit [KTrackAdd 1; KTrackAdd 2; KWUnsub 2; KCloseBegin 1; KCloseUnsub 1 2; KCloseUnsub 1 1; KCloseDone 1;
+                         KCloseSkip 2; KTrackNil 3; KWDel 2] = Some st
+    /\ k_cpc st 2 = CDone /\ k_added st = [2; 1] /\ k_unsubd st 1 = true /\ k_unsubd st 2 = true
+    /\ krun kinit [KTrackAdd 1; KCloseBegin 1; KCloseSkip 2] = None.
 Proof. eexists. vm_compute. repeat split; reflexivity. Qed.
 
 (* ======================================================================== TypeMux (aqua/event/event.go)
